@@ -26,10 +26,10 @@ run_demo() {
     rm -f "$R/$d/zz_seed_demo_test.go"
     return $rc
   elif [ -d "$SEED/demo" ]; then
-    sn=$(basename "$SEED")
-    mkdir -p "$R/$sn" && cp -r "$SEED/demo" "$R/$sn/demo"
-    (cd "$R" && timeout 600 go run "./$sn/demo" >"$WT/demo.log" 2>&1); rc=$?
-    rm -rf "$R/$sn"
+    # a stand-alone program that takes the repository root as its argument
+    D=$(mktemp -d /tmp/seeddemo.XXXXXX); cp -r "$SEED/demo/." "$D/"
+    (cd "$D" && timeout 600 go run main.go "$R" >"$WT/demo.log" 2>&1); rc=$?
+    rm -rf "$D"
     return $rc
   fi
   return 99
